@@ -414,7 +414,7 @@ macro_rules! narrow_rank_assembled {
         }
     };
 }
-// @h props=C06,C04,C10 tier=quick family=A prof=A mem=5 timeout=1800 role=rsnarrow.rank.assembled
+// @h props=C06,C04:t,C10:t tier=quick family=A prof=A mem=5 timeout=1800 role=rsnarrow.rank.assembled
 // @bound RSNarrow assembled over any bit vector of 1..=512 bits and an ARBITRARY directory: rank1(i) = sub_block_rank(word) + ones among the first cnt bits of that word, for i = 64*word + cnt with the word symbolic and cnt in {1, 2, 32, 63, 64}; rank1(0) = 0 (also unchecked); None past the end; rank0 and the unchecked forms agree
 // @funcs RSNarrow::rank1, RSNarrow::rank1_unchecked, RSNarrow::rank0, RSNarrow::rank0_unchecked, RSNarrow::get
 narrow_rank_assembled!(c06_narrow_rank_assembled_l1, [1, 2, 32, 63, 64], 5, 20);
